@@ -173,6 +173,26 @@ def op_subs_templates(ctx, max_param, ints):
     ctx.report['templates'] = uniq
 
 
+def op_snapshot(ctx, pairs):
+    """Harness op (not ESR code): between two barriers rank 0 copies files/dirs inside scratch; FS seam off."""
+    import shutil
+    ctx.comm.Barrier()
+    if ctx.rank == 0:
+        on = ctx.fs_state['on']
+        ctx.fs_state['on'] = False
+        try:
+            for src, dst in pairs:
+                s_, d_ = ctx.scratch + '/' + src, ctx.scratch + '/' + dst
+                if os.path.isdir(s_):
+                    shutil.copytree(s_, d_, dirs_exist_ok=True)
+                elif os.path.exists(s_):
+                    os.makedirs(os.path.dirname(d_), exist_ok=True)
+                    shutil.copy(s_, d_)
+        finally:
+            ctx.fs_state['on'] = on
+    ctx.comm.Barrier()
+
+
 def op_barrier(ctx):
     ctx.comm.Barrier()
 
@@ -184,12 +204,12 @@ def op_check_results(ctx, runname, compl, **kw):
 
 
 OPS = dict(gen=op_gen, npseed=op_npseed, like=op_like, fit=op_fit, load_subs=op_load_subs,
-           slices=op_slices, simp_inv=op_simp_inv, subs_templates=op_subs_templates, barrier=op_barrier, check_results=op_check_results)
+           slices=op_slices, simp_inv=op_simp_inv, subs_templates=op_subs_templates, snapshot=op_snapshot, barrier=op_barrier, check_results=op_check_results)
 
 
-def run_program(program, rank, size, scratch, report, comm):
+def run_program(program, rank, size, scratch, report, comm, fs_state=None):
     ctx = types.SimpleNamespace(rank=rank, size=size, scratch=scratch, report=report, comm=comm,
-                                per_rank_seed=True)
+                                per_rank_seed=True, fs_state=fs_state if fs_state is not None else {'on': False})
     report['ops_done'] = 0
     for op in program:
         name, kw = op[0], (op[1] if len(op) > 1 else {})
